@@ -161,6 +161,15 @@ pub fn gen_case(rng: &mut Rng, corpus: &[String]) -> Option<Case13> {
         let refs: Vec<&Hir> = hirs.iter().collect();
         inputgen::gen_input(rng, &refs, term, nlines)
     };
+    // An input that starts with a byte-order mark is searched as its
+    // transcoding (C17's territory): keep it out, as C01 does.
+    let mut input = input;
+    if input.starts_with(b"\xef\xbb\xbf")
+        || input.starts_with(b"\xff\xfe")
+        || input.starts_with(b"\xfe\xff")
+    {
+        input.insert(0, b'x');
+    }
     Some(Case13 { pattern, flags, cfg, input })
 }
 
